@@ -111,9 +111,20 @@ func c13RunSync(tb drv.TB, rec *drv.Rec, sub string, c c13Case) {
 	}
 	for step, op := range c.Ops {
 		mac := w.Clients[op.T%4]
+		// an offer is part of the station's MAC entry: it is gone once the entry was deleted (the station's last
+		// address was re-bound to another station), even if the entry is created again later
+		for m := range offer {
+			if s.FindMACEntry(hw(m)) == nil {
+				delete(offer, m)
+			}
+		}
 		switch op.K {
 		case "start":
-			_, err := h.StartHunt(packet.Addr{MAC: hw(mac), IP: c13IP(op.T % 4)})
+			startIP := c13IP(op.T % 4)
+			if op.IP == 99 { // the station is hunted again under another address of its own (e.g. after a DHCP renewal)
+				startIP = netip.AddrFrom4([4]byte{192, 168, 0, byte(150 + op.T%4)})
+			}
+			_, err := h.StartHunt(packet.Addr{MAC: hw(mac), IP: startIP})
 			if err != nil {
 				fail(step, "c13-starthunt-error", "StartHunt returned %v", err)
 				return
@@ -159,8 +170,12 @@ func c13RunSync(tb drv.TB, rec *drv.Rec, sub string, c c13Case) {
 				p.SPA = [4]byte{}
 				// the outstanding offer is what the session holds for the prober right now (a MAC entry, and with it
 				// the offer, disappears when the last address of that MAC is re-bound to another station)
-				o := s.DHCPv4IPOffer(hw(mac))
-				_ = offer
+				// (the MAC entry is looked up, the offer itself is the harness's own record of SetDHCPv4IPOffer)
+				o := offer[mac]
+				if s.FindMACEntry(hw(mac)) == nil {
+					o = netip.Addr{}
+					delete(offer, mac)
+				}
 				expectReject = o.Is4() && o != c13IP(op.IP) && w.LAN.Contains(c13IP(op.IP))
 			case "announce":
 				p.TPA = p.SPA
@@ -473,6 +488,10 @@ func TestC13(t *testing.T) {
 		for i := rapid.IntRange(3, 30).Draw(t, "nops"); i > 0; i-- {
 			op := c13Op{K: rapid.SampledFrom([]string{"start", "start", "stop", "offer", "rx", "rx", "rx", "rx", "settle"}).Draw(t, "k"), T: rapid.IntRange(0, 3).Draw(t, "t")}
 			switch op.K {
+			case "start":
+				if rapid.IntRange(0, 2).Draw(t, "altIP") == 0 {
+					op.IP = 99
+				}
 			case "offer":
 				op.IP = rapid.SampledFrom([]int{0, 1, 2, 3, 6}).Draw(t, "ip")
 			case "rx":
